@@ -47,6 +47,16 @@ def gen_sched_cases(seed, ncases, types, orders=(4,), nsched=5, kinds="IIUDDDSCC
         nth = rng.randint(2, maxthreads)
         near = rng.randrange(U) if rng.random() < 0.6 else None
         progs = {th: gen_prog(rng, U, rng.randint(1, maxops), th, list(ks), ntags, near) for th in range(1, nth + 1)}
+        if allow_delete and order == 4 and "D" in ks and rng.random() < 0.3:
+            # deep tree (height 3) and deletes of neighbouring keys: internal nodes underflow, borrow and merge
+            U = rng.randint(36, 64)
+            init = ["I %d.0 %d" % (c, 1000 + c) for c in range(U)]
+            if rng.random() < 0.5:
+                init += ["D %d.0" % c for c in rng.sample(range(U), U // 4)]
+            base = rng.randrange(U)
+            progs = {1: ["D %d.0" % ((base + j) % U) for j in range(rng.randint(2, 4))]}
+            for th in range(2, nth + 1):
+                progs[th] = gen_prog(rng, U, rng.randint(1, maxops), th, list(ks), ntags, base)
         cases.append(dict(id="c%d" % i, type=typ, order=order, keys=gen.key_table(rng, typ, U), init=init, progs=progs,
                           sched=["rand %d %d %d" % (rng.randrange(10**9), nsched, 400)], dump=dump))
     return cases
